@@ -53,7 +53,7 @@ var strNames = []string{"s1", "s2", "s3", "cafe\u0301"}
 // joined with a separator in either order - and which have different answers
 var rePairs = func() [][2]string {
 	var out [][2]string
-	for _, sep := range []string{"/", ":", ",", " ", "\x00", "-", ""} {
+	for _, sep := range []string{"/", ":", "\x00", ""} {
 		out = append(out, [2]string{"aaab", "b" + sep + "c"}, [2]string{"c" + sep + "aaab", "b"}) // pattern + sep + subject
 		out = append(out, [2]string{"zb" + sep + "b", "zb"}, [2]string{"zb", "b" + sep + "zb"})     // subject + sep + pattern
 	}
@@ -108,6 +108,9 @@ func genDeep(s *Stream, cfg genCfg) string {
 		parts := make([]string, k)
 		for i := range parts {
 			parts[i] = "regexp(" + []string{"s1", "s2", "o1.b", "'hello world'"}[s.Intn(4)] + ", " + regexpPatterns[s.Intn(len(regexpPatterns))] + ")"
+			if s.Intn(3) == 0 {
+				parts[i] = "regexp(rs, rp)"
+			}
 		}
 		return "[" + strings.Join(parts, ", ") + "]"
 	case 0, 1:
